@@ -67,6 +67,26 @@ pub struct CliWorld {
 }
 
 impl CliWorld {
+  /// rule files that can be given to `scan -r FILE` (no global utility needed, one language)
+  pub fn standalone_rule_files(&self) -> Vec<String> {
+    let globals: Vec<String> = self.util_dirs.iter().flat_map(|d| d.files.iter().flat_map(|f| f.docs.iter().map(|r| r.id.clone()))).collect();
+    let needs_global = |r: &RuleSpec| {
+      let mut text = r.rule.clone();
+      for (_, u) in &r.utils {
+        text.push_str(u);
+      }
+      globals.iter().any(|g| text.contains(&format!("matches: {g}\n")))
+    };
+    let mut out = vec![];
+    for d in &self.rule_dirs {
+      for f in &d.files {
+        if !f.docs.is_empty() && f.docs.iter().all(|r| !needs_global(r) && r.severity.as_deref() != Some("off")) {
+          out.push(format!("{}/{}", d.name, f.name));
+        }
+      }
+    }
+    out
+  }
   pub fn all_rules(&self) -> Vec<&RuleSpec> {
     self.rule_dirs.iter().flat_map(|d| d.files.iter().flat_map(|f| f.docs.iter())).collect()
   }
